@@ -143,4 +143,29 @@ def read_index_from_selfies {ι : Type} (py_next : ι → Py ((Nat × Str) × ι
   let t_2 ← get_index_from_selfies index_symbols
   Except.ok ((t_2, n_read), symbol_iter)
 
+/-! ### encodings (selfies/utils/encoding_utils.py) -/
+
+/-- `encoding_to_selfies` of selfies/utils/encoding_utils.py (line 77), hand copy. -/
+def encoding_to_selfies (encoding : ((List Int) ⊕ (List (List Int)))) (vocab_itos : (List (Int × Str))) (enc_type : Str) : Py Str := do
+  if ((!(List.elem enc_type [(['l', 'a', 'b', 'e', 'l'] : Str), (['o', 'n', 'e', '_', 'h', 'o', 't'] : Str)]))) then
+    Except.error PyExc.ValueError
+  else
+    if ((decide (enc_type = (['o', 'n', 'e', '_', 'h', 'o', 't'] : Str)))) then
+      let integer_encoded : (List Int) := []
+      let integer_encoded : (List Int) ← List.foldlM (m := Py) (fun (integer_encoded : (List Int)) (row : (Int ⊕ (List Int))) => do
+          let t_1 ← PyRt.sumIndexOf row (1 : Int)
+          let integer_encoded : (List Int) := (integer_encoded ++ [t_1])
+          Except.ok integer_encoded
+          ) integer_encoded (PyRt.sumItems encoding)
+      let t_3 ← List.mapM (m := Py) (fun (i : Int) => do let t_2 ← PyRt.dictItemI vocab_itos i; Except.ok t_2) integer_encoded
+      let char_list : (List Str) := t_3
+      let selfies : Str := (List.flatten char_list)
+      Except.ok selfies
+    else
+      let integer_encoded : ((List Int) ⊕ (List (List Int))) := encoding
+      let t_5 ← List.mapM (m := Py) (fun (i : (Int ⊕ (List Int))) => do let t_4 ← PyRt.dictItemSum vocab_itos i; Except.ok t_4) (PyRt.sumItems integer_encoded)
+      let char_list : (List Str) := t_5
+      let selfies : Str := (List.flatten char_list)
+      Except.ok selfies
+
 end SV.Gen.Fallback
